@@ -1,6 +1,7 @@
 import OrsoVerif.Lemmas.Arrow
 import OrsoVerif.Lemmas.ArrowCols
 import OrsoVerif.Lemmas.ArrowFrame
+import OrsoVerif.Lemmas.ArrowShare
 import OrsoVerif.Lemmas.Frame
 /-!
 # C11 — Arrow interchange preserves rows, nulls, order and column typing
@@ -646,5 +647,96 @@ theorem field_name_nullable_carried (m : Bool) (f : ArrowField) (c : Col)
   · simp only [Option.some.injEq] at h
     subst h
     exact ⟨by simp [Gen.Arrow.carriesName], by simp [Gen.Arrow.carriesNullable]⟩
+
+/-! ## Separate conversions whose results are edited in between (fourth pass)
+
+A conversion hands out mutable objects built from an immutable Arrow schema that compares by value.
+`Model/ArrowShare.lean` runs a process of conversions and edits on a heap; whether a place allocates or hands out the
+objects it returned before is generated from the source. -/
+
+/-- **expression fact**: none of the places a caller gets columns from - `from_arrow` (which builds its
+`RelationSchema` in place, or through the helper), `convert_arrow_schema_to_orso_schema`, `FlatColumn.from_arrow` -
+keeps what it returned for an equal Arrow schema (no cache decorator on the place that builds the objects). -/
+theorem schema_built_fresh_spec : ∀ s, Share.memoGroupGen s = none := by
+  intro s; cases s <;> decide
+
+/-- **Every conversion is its caller's own**, for every session of conversions (through any of the three places,
+of any Arrow schemas - equal ones included) and edits of earlier results (any functions, in particular renaming a
+column, flipping its nullability, changing its type, removing or adding a column): each conversion returns the
+columns built from *its* Arrow fields, and at the end every result shows exactly the edits made through it
+(the session by value). -/
+theorem conversions_independent (steps : Share.Session) :
+    (Share.runGen steps).seen = (Share.convKeys steps).map Share.buildCols ∧
+    (Share.runGen steps).reads = (Share.spec Share.buildCols steps).vals.map some := by
+  have h := Share.fresh_refines Share.memoGroupGen schema_built_fresh_spec Share.buildCols steps
+  refine ⟨?_, h.2⟩
+  have h1 : (Share.runGen steps).seen = (Share.spec Share.buildCols steps).seen := h.1
+  rw [h1, Share.spec_seen]
+
+theorem buildCols_carries : ∀ (fields : List ArrowField) (cols : List Col), Share.buildCols fields = some cols →
+    cols.map (·.name) = fields.map (·.name) ∧ cols.map (·.nullable) = fields.map (·.nullable)
+  | [], cols, h => by
+    simp [Share.buildCols] at h
+    subst h; simp
+  | f :: fs, cols, h => by
+    simp only [Share.buildCols, List.mapM_cons, Option.bind_eq_bind, Option.pure_def, Option.bind_eq_some_iff] at h
+    obtain ⟨c, hc, cs, hcs, hh⟩ := h
+    simp only [Option.some.injEq] at hh
+    subst hh
+    obtain ⟨a, b⟩ := buildCols_carries fs cs hcs
+    obtain ⟨c1, c2⟩ := field_name_nullable_carried false f c hc
+    simp [a, b, c1, c2]
+
+/-- …in the statement's words: **the names and nullability of the columns a conversion returns are those of its own
+Arrow fields**, at whatever point of whatever session the conversion is made. -/
+theorem later_conversion_carries_fields (steps : Share.Session) (i : Nat) (fields : List ArrowField) (cols : List Col)
+    (hk : (Share.convKeys steps)[i]? = some fields) (hs : (Share.runGen steps).seen[i]? = some (some cols)) :
+    cols.map (·.name) = fields.map (·.name) ∧ cols.map (·.nullable) = fields.map (·.nullable) := by
+  rw [(conversions_independent steps).1, List.getElem?_map, hk] at hs
+  simp only [Option.map_some, Option.some.injEq] at hs
+  exact buildCols_carries fields cols hs
+
+/-- the session of the seeded change C11-w6s2: convert, rename the result's first column, convert an equal schema -/
+def aliasSession : Share.Session :=
+  let f : ArrowField := { name := "id", type := .prim "INT64", nullable := false }
+  [.conv .fromArrow [f], .edit 0 (Share.Edit.apply (.rename 0 "identifier")), .conv .fromArrow [f]]
+
+def namesOfConversion (st : Share.St (List ArrowField) (Option (List Col))) (i : Nat) : Option (List String) :=
+  (st.seen[i]?.bind id).map (·.map (·.name))
+
+/-- Why the fact above is needed (regression lemma for C11-w6s2): with a cache decorator on the helper **and**
+`from_arrow` calling the helper, the second conversion returns the renamed column; either change alone is harmless. -/
+theorem memoised_helper_aliases :
+    namesOfConversion (Share.run (Share.memoGroup true true false) Share.buildCols aliasSession) 1 = some ["identifier"] ∧
+    namesOfConversion (Share.run (Share.memoGroup false true false) Share.buildCols aliasSession) 1 = some ["id"] ∧
+    namesOfConversion (Share.run (Share.memoGroup true false false) Share.buildCols aliasSession) 1 = some ["id"] ∧
+    namesOfConversion (Share.runGen aliasSession) 1 = some ["id"] := by
+  decide +kernel
+
+
+/-- **expression fact** (the other direction): `FlatColumn.arrow_field` is computed on every read (a plain property),
+`convert_orso_schema_to_arrow_schema`, `to_arrow` and `DataFrame.arrow` carry no cache decorator. -/
+theorem to_arrow_sites_fresh_spec : ∀ s, Share.To.memoisedGen s = false := by
+  intro s; cases s <;> decide
+
+/-- **A conversion to Arrow describes the columns as they are when it is made**: for every collection of schema
+objects and every session of conversions (column by column, through the schema helper, through a frame's `arrow()`)
+and edits of the objects in between (any functions on the list of columns), the fields / names written are those of
+the object's columns at that moment. -/
+theorem to_arrow_describes_current_columns (objs : List (List Col)) (steps : List Share.To.Step) :
+    Share.To.run Share.To.memoisedGen objs steps = Share.To.spec objs steps :=
+  Share.To.fresh_refines _ to_arrow_sites_fresh_spec objs steps
+
+/-- Why the fact is needed: with `arrow_field` kept per column (a cached property) a renamed column is still written
+under its old name. -/
+theorem kept_arrow_field_is_stale :
+    let c : Col := { name := "id", type := .INTEGER, elem := none, precision := none, scale := none, nullable := false }
+    let rename : Share.To.Step := .edit 0 (Share.Edit.onCols (.rename 0 "identifier"))
+    (Share.To.run (Share.To.memoised true false false) [[c]] [.conv .fields 0, rename, .conv .fields 0]).getLast?
+        = some (some (.fields [arrowField c])) ∧
+    (Share.To.run Share.To.memoisedGen [[c]] [.conv .fields 0, rename, .conv .helper 0]).getLast?
+        = some (some (.fields [arrowField { c with name := "identifier" }])) := by
+  decide +kernel
+
 
 end C11
